@@ -1255,6 +1255,55 @@ pub fn run_c12_big(ctx: &Ctx, st: &mut Local) {
         (128 * mib - 7, "expanded form 128 MiB - 1"),
     ];
     let mut idx = 0u64;
+    // highly redundant files: the expanded form is thousands of times larger than the zstd frame
+    let mut redundant: Vec<(String, Vec<u8>)> = vec![
+        ("128 KiB of zeros".into(), vec![0u8; 131072]),
+        ("1 MiB of zeros".into(), vec![0u8; 1 << 20]),
+        ("3 MiB of one repeated 45-byte record".into(), b"record 0001: the quick brown fox jumps over;\n".iter().cycle().take(3 << 20).cloned().collect()),
+    ];
+    {
+        let rec: Vec<u8> = b"<td class=\"blank\">&nbsp;</td>\n".iter().cycle().take(4 << 20).cloned().collect();
+        if let Some(sd) = comp::zlib_deflate_raw(&rec, 6, 0, 15, 8) {
+            redundant.push(("zlib stream of 4 MiB of one repeated record".into(), crate::wrap::zlib_wrap([0x78, 0x9c], &sd, &rec)));
+        }
+    }
+    for (label, f) in &redundant {
+        let i = idx;
+        idx += 1;
+        count(ctx, name, st, i, true);
+        if !ctx.take(name, i) {
+            continue;
+        }
+        let n = f.len();
+        st.sample(name, || format!("#{} {} ({} bytes)", i, label, n));
+        ctx.begin(name, i, 600_000);
+        let bound = comp::zstd_compress_bound(5 * (1 << 20));
+        let mut z = vec![0u8; bound];
+        let mut rs: u64 = 0;
+        let rc = unsafe { s.c_compress(f.as_ptr(), n as u64, z.as_mut_ptr(), bound as u64, &mut rs) };
+        if rc != 0 || rs as usize > bound {
+            ctx.end();
+            st.violation(ctx.viol(name, i, "compress-fails-with-ample-buffer", None, format!("{}: WrapperCompressZip status {}", label, rc), &[]));
+            continue;
+        }
+        z.truncate(rs as usize);
+        let mut bad = None;
+        for cap in [n, n + 64] {
+            let mut out = vec![0u8; cap];
+            let mut rs2: u64 = 0;
+            let rc2 = unsafe { s.c_decompress(z.as_ptr(), z.len() as u64, out.as_mut_ptr(), cap as u64, &mut rs2) };
+            if rc2 != 0 || rs2 as usize != n || out[..n] != f[..] {
+                bad = Some((cap, rc2, rs2));
+                break;
+            }
+        }
+        ctx.end();
+        match bad {
+            Some((cap, rc2, rs2)) => st.violation(ctx.viol(name, i, "decompress-fails-with-sufficient-buffer", None,
+                format!("{} (frame {} bytes): WrapperDecompressZip with capacity {} gives status {} / result_size {}", label, z.len(), cap, rc2, rs2), &[])),
+            None => st.outcome(name, "redundant-file-round-trip"),
+        }
+    }
     for (n, label) in sizes {
         for prefix in [320 * 1024usize, 0] {
             let i = idx;
@@ -1297,7 +1346,7 @@ pub fn run_c12_big(ctx: &Ctx, st: &mut Local) {
         }
     }
     let e = st.eng(name);
-    e.bound = "stream-free files of 70 MiB, 100 MiB and with an expanded form of exactly 128 MiB and 128 MiB - 1, with a 320 KiB incompressible prefix (zstd frame > 256 KiB) and without (thorough), through both C wrappers".into();
+    e.bound = "stream-free files of 70 MiB, 100 MiB and with an expanded form of exactly 128 MiB and 128 MiB - 1, with a 320 KiB incompressible prefix (zstd frame > 256 KiB) and without (thorough), and four highly redundant files (expanded form thousands of times larger than the frame), through both C wrappers".into();
     e.exhaustive = true;
 }
 
